@@ -75,7 +75,7 @@ def run_spec_level(ctx: Ctx):
 
     def one(nc):
         name, cfg = nc
-        return name, tlc.run_tlc("SensorChain", cfg, ctx.sub(f"spec_{name}"), workers=max(2, ctx.cpus // 4), timeout=2400)
+        return name, tlc.run_tlc("SensorChain", cfg, ctx.sub(f"spec_{name}"), workers=2 if ctx.quick else max(2, ctx.cpus // 4), timeout=2400)
 
     with ThreadPoolExecutor(3) as ex:
         cov = ex.submit(coverage_run, ctx)
@@ -901,7 +901,7 @@ def drive(ctx: Ctx, rng):
             app_a.stepForward()
             _advance_truth_only(app_b, app_a)
             for run in runs:
-                sweep(run, rng, per_sensor=6 if ctx.quick else 12, max_bg=3)
+                sweep(run, rng, per_sensor=5 if ctx.quick else 12, max_bg=3)
                 if n == nsteps - 1:
                     if ctx.quick:
                         synthetic(run, rng, 1, lambda i, pi=pi: i % len(plans) == pi)
